@@ -61,7 +61,9 @@ class _ReturnRewriter(ast.NodeTransformer):
         if self.loop_depth > 0:
             self.used_done = True
             out.append(ast.copy_location(ast.Assign(targets=[ast.Name(id=self.done, ctx=ast.Store())], value=ast.Constant(value=True)), node))
-        out.append(ast.copy_location(ast.Break(), node))
+        brk = ast.Break()
+        brk._from_return = True
+        out.append(ast.copy_location(brk, node))
         return out
 
     def _loop(self, node):
@@ -70,7 +72,9 @@ class _ReturnRewriter(ast.NodeTransformer):
         node.orelse = self._stmts(node.orelse)
         self.loop_depth -= 1
         if self.used_done:
-            guard = ast.If(test=ast.Name(id=self.done, ctx=ast.Load()), body=[ast.Break()], orelse=[])
+            gb = ast.Break()
+            gb._from_return = True
+            guard = ast.If(test=ast.Name(id=self.done, ctx=ast.Load()), body=[gb], orelse=[])
             ast.copy_location(guard, node)
             ast.fix_missing_locations(guard)
             return [node, guard]
@@ -126,10 +130,12 @@ def _is_recursive(ctx, fi):
 def _callee(ctx, call, finfo, keep):
     f = call.func
     name = f.id if isinstance(f, ast.Name) else f.attr if isinstance(f, ast.Attribute) else None
-    if name is None or name in keep or not name.startswith("_") or name.startswith("__"):
+    if name is None or name in keep or name.startswith("__"):
         return None
     if isinstance(f, ast.Attribute) and dotted(f.value) not in ("self", "cls"):
         return None
+    if not name.startswith("_") and not (isinstance(f, ast.Attribute) and dotted(f.value) == "self"):
+        return None  # public module-level functions are anchors of their own
     res = [c for c in ctx.resolver.callees(call, finfo, {}) if isinstance(c, FuncInfo)]
     if len(res) != 1:
         return None
